@@ -23,6 +23,7 @@ L4F = "litedram/phy/lpddr4/commands.py"
 L5F = "litedram/phy/lpddr5/commands.py"
 L4S = "litedram/phy/lpddr4/sim.py"
 AXF = "litedram/frontend/axi.py"
+FFF = "litedram/frontend/fifo.py"
 
 
 def M(id, prop, ob, file, old, new, expect="refuted", **kw):
@@ -271,4 +272,13 @@ MUTANTS = [
     M("c11.2-cmd-nodata", "C11", "C11.2", AVF, "port.cmd.valid.eq(cmd_fifo.source.valid & (0 < wdata_fifo.level)),", "port.cmd.valid.eq(cmd_fifo.source.valid),"),
     M("c11.3-latch", "C11", "C11.3", AVF, "                writedata.eq(avalon.writedata),\n", ""),
     M("c11.4-offset", "C11", "C11.4", AVF, "address.eq(avalon.address - address_offset),", "address.eq(avalon.address),"),
+    # ---- C13 ----
+    M("c13.1-writable", "C13", "C13.1", FFF, "self.writable.eq(self.level < depth),", "self.writable.eq(self.level <= depth),"),
+    M("c13.1-write-strobe", "C13", "C13.1", FFF, "            If(writer.sink.valid & writer.sink.ready,\n                sink.ready.eq(1),\n                ctrl.write.eq(1)\n            ),", "            If(writer.sink.valid,\n                sink.ready.eq(writer.sink.ready),\n                ctrl.write.eq(1)\n            ),"),
+    M("c13.1-wrap", "C13", "C13.1", FFF, "        return If(signal == (modulo - 1),", "        return If(signal == modulo,"),
+    M("c13.1-level", "C13", "C13.1", FFF, "self.level.eq(self.level + self.write - self.read),", "self.level.eq(self.level + self.write),"),
+    M("c13.1-addr", "C13", "C13.1", FFF, "reader.sink.address.eq(ctrl.base + ctrl.read_address),", "reader.sink.address.eq(ctrl.base + ctrl.write_address),"),
+    M("c13.1-readable", "C13", "C13.1", FFF, "reader.sink.valid.eq(ctrl.readable),", "reader.sink.valid.eq(1),"),
+    M("c13.3-bypass-state", "C13", "C13.3", FFF, '            fsm.act("DRAM",\n                dram_store.eq(1),', '            fsm.act("DRAM",\n                dram_store.eq(1),\n                dram_bypass.eq(dram_first),'),
+    M("c13.3-both-sources", "C13", "C13.3", FFF, "                post_converter.source.connect(post_fifo.sink)\n            ),", "            ),\n            post_converter.source.connect(post_fifo.sink),"),
 ]
